@@ -287,6 +287,12 @@ def o3(rep, F):
                 a = n.get("args") or []
                 loc = [y for y in walk(a[0]) if y.get("k") == "local"] if a else []
                 ok_ext = bool(loc) and all(y["id"] in tagids for y in loc)
+        for n in walk(body):
+            if is_call(n, "SwiftField::parse") and not is_call(n, "SwiftField::parse_with_variant"):
+                rep.add(Finding("O3", b["path"], "letterless-parse",
+                                "%s also calls the letterless T::parse on the content: a content that does not fit "
+                                "the option named by the tag can come back as another option" % name,
+                                b["file"], n.get("ln")))
         if not ok_pwv:
             rep.add(Finding("O3", b["path"], "letter-arg",
                             "%s does not pass the detected letter to parse_with_variant" % name, b["file"], b["line"]))
